@@ -451,6 +451,15 @@ func runHostile(o *rec, self, scratch string, id int, hc *hostileCase) {
 	stderr, exitErr := np.finish()
 	crashed := !alive || strings.Contains(stderr, "panic:") || strings.Contains(stderr, "fatal error:")
 	wit := map[string]interface{}{"case": hc, "script_error": scriptErr, "canary_error": canaryErr, "exit": fmt.Sprint(exitErr), "stderr_tail": tail(stderr, 3000)}
+	outcome := "survived"
+	if crashed {
+		outcome = "died"
+	}
+	lbl := hc.Name
+	if hc.Outbound {
+		lbl += "(node dials)"
+	}
+	o.Count(fmt.Sprintf("h_outcome:%s:ca=%v:%s", lbl, hc.AuthCA, outcome), 1)
 	switch {
 	case crashed:
 		site := crashSite(stderr)
